@@ -49,7 +49,7 @@ def mechanism(draw):
             k = ads[a]['site']
             react = [['gas', draw(st.integers(0, len(gas) - 1)), 1], ['vac', k, ads[a]['n_sites']]]
             prod = [['ads', a, 1]] + ([['bulk', k, 1]] if draw(st.integers(0, 3)) == 0 else [])
-            rxns.append({'kind': kind, 'react': react, 'prod': prod, 'ts': False, 'stick': draw(st.floats(0.01, 1.0)),
+            rxns.append({'kind': kind, 'react': react, 'prod': prod, 'ts': False, 'stick': draw(st.one_of(st.floats(0.01, 1.0), st.floats(0.01, 1.0), st.sampled_from([0.0, 1.0]))),
                          'beta': 0.0})
         elif kind == 'surf':
             a = draw(st.integers(0, len(ads) - 1))
@@ -124,7 +124,7 @@ def build(case):
                 ts = [nasa('TS%d(S)' % m, 'S', {'cp': 5.0, 'a6': 2e4 + 500 * m, 'a7': 3.0}, {}, cat_site=sites[0], n_sites=1)]
         rxns.append(ChemkinReaction(reactants=re_, reactants_stoich=rs, products=pr, products_stoich=ps, transition_state=ts,
                                     transition_state_stoich=[1.0] if ts else None, beta=r['beta'],
-                                    is_adsorption=r['kind'] == 'ads', sticking_coeff=r['stick'] if r['stick'] else 0.5))
+                                    is_adsorption=r['kind'] == 'ads', sticking_coeff=r['stick'] if r['stick'] is not None else 0.5))
     all_species = sp['gas'] + sp['ads'] + sp['vac'] + list(bulk.values())
     return sites, sp, rxns, Reactions(reactions=rxns), all_species
 
